@@ -16,7 +16,8 @@ KERNELS = ["nccIsNormalisedDot", "znccIsCentredNcc", "znccScoreChain", "nccScore
            "scoreMaskThenTransform", "optimizeMaskThenTransform", "landscapeMaskThenTransform",
            "fscIsLandscapeCentre", "znccAlignUsesLandscape", "nccAlignUsesLandscape", "pccMidpoint",
            "pccWrapCond", "pccScoreAtArgmax", "pccCropBounds", "pccLandscapeBounds", "paddingWidth",
-           "padWidthEff0", "padWidthEff1", "meshBounds", "meshNode"]
+           "padWidthEff0", "padWidthEff1", "meshBounds", "meshNode",
+           "modelMethodsDoNotStoreBase", "modelMethodsDoNotStoreConcrete", "tiltModelsDoNotStore"]
 TRUSTED = [
     "Lean 4.33 kernel; axioms propext / Classical.choice / Quot.sound only; Mathlib's Cauchy-Schwarz "
     "for Finset sums",
@@ -153,6 +154,11 @@ def run_case(inp):
         if kind == "pearson":
             for name, ref in (("ZNCC", _pearson), ("NCC", _ncc)):
                 model = M[name](tmpl, mask, **kw)
+                for j in range(int(inp.get("history", 0))):      # the same model used for other orientations first
+                    hq = Rotation.random(random_state=inp["seed"] + j).as_quat().astype(np.float32)
+                    model.score(tmpl, hq, pos)
+                    model.align(sub, (1.0, 1.0, 1.0), quaternion=hq, pos=pos)
+                    model.landscape(sub, (1.0, 1.0, 1.0), quaternion=hq, pos=pos)
                 s = float(model.score(sub, quat, pos))
                 want = ref(_pre(sub, mask, inp["cutoff"], inp["tilt"], quat),
                            _pre(tmpl, mask, inp["cutoff"], inp["tilt"], quat))
@@ -173,6 +179,36 @@ def run_case(inp):
                 s_off = float(model.score((sub + 2.25).astype(np.float32), quat, pos))
                 if abs(s_off - s0) > 2e-4:
                     V("offset", f"unmasked ZNCC changes under an offset: {s0:.6f} -> {s_off:.6f}")
+        elif kind == "multi":
+            # several templates (no rotation search): every candidate's score is the Pearson correlation with
+            # that template, pre-processed like the sub-volume (mask, low-pass, wedge)
+            t2 = ndi.gaussian_filter(r.normal(size=shape), 0.8).astype(np.float32)
+            temps = [tmpl, t2]
+            for name, ref in (("ZNCC", _pearson), ("NCC", _ncc)):
+                model = M[name](temps, mask, **kw)
+                for j, tj in enumerate(temps):
+                    single = float(M[name](tj, mask, **kw).score(sub, quat, pos))
+                    want = ref(_pre(sub, mask, inp["cutoff"], inp["tilt"], quat),
+                               _pre(tj, mask, inp["cutoff"], inp["tilt"], quat))
+                    if abs(single - want) > 2e-4:
+                        V("pearson", f"{name} single-template score {single:.6f} vs correlation {want:.6f}")
+                if name != "ZNCC":
+                    continue        # score / landscape / alignment agreement is stated for the normalised models only
+                res = model.align(sub, (0.0, 0.0, 0.0), quaternion=quat, pos=pos)
+                wants = [ref(_pre(sub, mask, inp["cutoff"], inp["tilt"], quat),
+                             _pre(tj, mask, inp["cutoff"], inp["tilt"], quat)) for tj in temps]
+                if abs(float(res.score) - max(wants)) > 3e-4:
+                    V("multi-template", f"{name} with 2 templates and mask={inp['mask']}: zero-range alignment score "
+                                        f"{float(res.score):.6f} but the per-template correlations are {np.round(wants, 6).tolist()}")
+                lds = np.asarray(model.landscape(sub, (1.0, 1.0, 1.0), quaternion=quat, pos=pos))
+                if lds.ndim == 4:
+                    cs = [float(lds[(j,) + tuple(x // 2 for x in lds.shape[1:])]) for j in range(len(temps))]
+                    if np.abs(np.array(cs) - np.array(wants)).max() > 3e-4:
+                        V("multi-template", f"{name} landscape centres {np.round(cs, 6).tolist()} vs per-template "
+                                            f"correlations {np.round(wants, 6).tolist()} (mask={inp['mask']})")
+                self_res = model.align(t2, (0.0, 0.0, 0.0), quaternion=quat, pos=pos)
+                if name == "ZNCC" and abs(float(self_res.score) - 1) > 1e-3:
+                    V("self", f"{name} with 2 templates: a sub-volume identical to template 1 scores {float(self_res.score):.6f}")
         elif kind == "agree":
             for name in ("ZNCC", "FSC"):
                 model = M[name](tmpl, mask, **kw)
@@ -224,7 +260,7 @@ def oracle(rng, thorough, deep=False, hints=None):
     shapes = [(8, 8, 8), (9, 9, 9), (8, 9, 10), (7, 11, 9), (6, 6, 7)]
     n = 14 if big else 4
     for it in range(n):
-        for kind in ("pearson", "agree", "history", "argmax"):
+        for kind in ("pearson", "agree", "history", "argmax", "multi"):
             shape = shapes[(it + len(kind)) % len(shapes)]
             if kind == "argmax":
                 shape = (14, 15, 16)[it % 3], 14, 15
@@ -234,7 +270,14 @@ def oracle(rng, thorough, deep=False, hints=None):
                               cutoff=[None, 0.3, 0.6][(it + 1) % 3],
                               tilt=[None, [-60, 60], [-40, 50]][(it + (kind == "history")) % 3],
                               quat=q, model=["ZNCC", "NCC", "PCC", "FSC"][it % 4],
-                              d=[int(x) for x in rng.integers(-2, 3, size=3)]))
+                              d=[int(x) for x in rng.integers(-2, 3, size=3)],
+                              history=2 if (kind == "pearson" and it % 2) else 0))
+    # always: a wedge model used for other orientations before the score that is checked
+    cases.append(dict(kind="pearson", shape=[8, 9, 8], seed=int(rng.integers(0, 10 ** 6)), mask=None, cutoff=None,
+                      tilt=[-60, 60], quat=Rotation.random(random_state=int(rng.integers(0, 10 ** 6))).as_quat().tolist(),
+                      model="ZNCC", d=[0, 0, 0], history=3))
+    cases.append(dict(kind="multi", shape=[8, 8, 9], seed=int(rng.integers(0, 10 ** 6)), mask="soft", cutoff=None,
+                      tilt=None, quat=[0, 0, 0, 1.0], model="ZNCC", d=[0, 0, 0], history=0))
     viols, stats = [], {"by_kind": {}, "samples": [{"oracle_case": c} for c in cases[:2]]}
     for c in cases:
         stats["by_kind"][c["kind"]] = stats["by_kind"].get(c["kind"], 0) + 1
